@@ -228,12 +228,12 @@ func evLabel(e schedEvent) string {
 // ones) and following whichever outcome the real code produces.  It returns the conformance
 // mismatch (if any), the panics observed and the recorded history.
 type walkResult struct {
-	steps     []string
-	conform   string // non-empty: model and code disagree
-	panics    []string
-	hist      *history
-	overlap   bool // a close step happened while a send was in flight
-	finished  bool
+	steps    []string
+	conform  string // non-empty: model and code disagree
+	panics   []string
+	hist     *history
+	overlap  bool // a close step happened while a send was in flight
+	finished bool
 }
 
 func c09Walk(g *graph.Graph, cfg c09Cfg, rng *rand.Rand, covered map[string]int, grace time.Duration) walkResult {
